@@ -523,6 +523,13 @@ func (r *reconstructor) reconstructMap(rv reflect.Value) error {
 						b[i] = buf[i]
 					}
 
+					// The map holds the value itself (e.g. map[string]Binary),
+					// not a pointer to it or an interface.
+					if original.Kind() == reflect.Slice {
+						rv.SetMapIndex(mk, n)
+						return nil
+					}
+
 					x := reflect.New(mv.Type())
 					x.Elem().Set(n)
 					rv.SetMapIndex(mk, x)
